@@ -9,6 +9,8 @@ NOTE = ("Trusted base: go/types, go/ssa, the VTA/CHA call graph (x/tools v0.29.0
         "it does not execute parsley code.")
 
 CLAIMED = {
+ "C08": dict(ref="§4 C08", technique="panic-site inventory with taint classification of the immediate guard (configuration vs input), sibling agreement on conversion-error handling, Readf callback contract discharged by the linear-facts engine, provenance rules for node spans and decoded values, bounds obligations for package text/terminal",
+   text="Static rules deciding, for all byte sequences and offsets, that no literal parser can panic on input (every explicit panic is configuration-guarded; conversion errors are returned; Readf's contract is satisfied by its callback including the invalid-UTF-8 rule; all index/slice expressions are in bounds), that every terminal returns a node xor an error, that nodes start at the parser's position and end at a Reader-returned one and take their value from Go's conversion. That the value equals Go's conversion of the LONGEST literal of the documented syntax (regexp semantics) is not decided."),
  "C09": dict(ref="§4 C09", technique="bounds obligations discharged by an in-house linear-facts abstract domain: dominating guards + type invariant File.len=len(File.data) + one-step loop induction + library contracts, refuted by Fourier-Motzkin elimination; who-may-write rule for file content; linear-normal-form comparison for Remaining/IsEOF",
    text="Static bounds analysis deciding, for all contents, offsets and positions in the documented domain, that every index/slice expression of the text reader is in bounds, that returned positions are the original one on mismatch or lie within the file, that file content is write-once, that regexps are anchored as a whole and cached under their own key, and that Remaining/IsEOF are the byte-length linear forms. Agreement of WHAT each primitive matches with a byte-level specification is not decided."),
  "C10": dict(ref="§4 C10", technique="table agreement between the statement's mode table and SkipWhitespaces' return structure (dominating mode/run conditions, error variable, position kind), constant-set rule for the whitespace alphabet, sibling agreement over the SetReaderPos implementations, path-sensitive return analysis of LeftTrim, dominance rule in Parse",
